@@ -8,6 +8,7 @@
 //! database (SaveLoad continues with the LOADED state), SQL count of pending rows per account;
 //! (4) the repository's conformance suite as a regression floor.
 
+mod fixed;
 mod hang;
 mod model;
 mod persist;
@@ -1140,7 +1141,9 @@ impl H<'_> {
 }
 
 fn run_history(case: &Case, kind: BackendKind) -> CaseResult {
-    hang::set_case(if kind == BackendKind::Memory { "history-memory" } else { "history-sqlite" }, serde_json::to_string(case).unwrap_or_default());
+    let json = serde_json::to_string(case).unwrap_or_default();
+    let key = vcore::hash64(json.as_bytes()) | 1;
+    hang::set_case(if kind == BackendKind::Memory { "history-memory" } else { "history-sqlite" }, json);
     let built = build(case);
     with_backend(kind, |backend| -> CaseResult {
         backend.reset()?;
@@ -1172,6 +1175,7 @@ fn run_history(case: &Case, kind: BackendKind) -> CaseResult {
         let f = &h.flags;
         let nontrivial = f.broadcasts_offered >= 1 && (f.rollback_unmined || f.expiry_passed || f.mark_recorded || f.report_adjudicated);
         Ok(Obs::new(nontrivial)
+            .key(key)
             .label_if(f.broadcasts_offered > 0, "broadcast-offered")
             .label_if(f.proves_offered > 0, "prove-offered")
             .label_if(f.rollback_unmined, "rollback-unmined")
@@ -1357,9 +1361,19 @@ fn main() {
     let tier = ctx.tier;
 
     ctx.run_enum("regression", 4, true, regression, |i| format!("regression case {i}"));
+    ctx.run_enum(
+        "regression-histories",
+        2 * fixed::ALL.len() as u64,
+        true,
+        |i| {
+            let case: Case = serde_json::from_str(fixed::ALL[i as usize / 2]).map_err(|e| Fail::new("harness-fixed-case", format!("fixed history {}: {e}", i / 2)))?;
+            run_history(&case, if i % 2 == 0 { BackendKind::Memory } else { BackendKind::Sqlite })
+        },
+        |i| format!("fixed history {} on {}: {}", i / 2, if i % 2 == 0 { "memory" } else { "sqlite" }, fixed::ALL[i as usize / 2]),
+    );
 
     let max_ev = tier.pick(40usize, 80);
-    ctx.run_prop("history-memory", move || arb_case(max_ev), tier.pick(600_000, 20_000_000), |c| run_history(c, BackendKind::Memory));
+    ctx.run_prop("history-memory", move || arb_case(max_ev), tier.pick(400_000, 20_000_000), |c| run_history(c, BackendKind::Memory));
     for l in ["broadcast-offered", "prove-offered", "mark-recorded", "rollback-unmined", "save-load"] {
         ctx.require_label_fraction("history-memory", l, 0.10);
     }
@@ -1370,12 +1384,12 @@ fn main() {
         ctx.require_min_count("history-memory", l, 50);
     }
 
-    ctx.run_prop("history-sqlite", move || arb_case(24), tier.pick(12_000, 400_000), |c| run_history(c, BackendKind::Sqlite));
+    ctx.run_prop("history-sqlite", move || arb_case(24), tier.pick(10_000, 400_000), |c| run_history(c, BackendKind::Sqlite));
     ctx.require_label_fraction("history-sqlite", "save-load", 0.10);
 
     let three = || (arb_migration_state(), arb_migration_state(), arb_migration_state());
     ctx.run_prop("roundtrip-memory", three, tier.pick(50_000, 2_000_000), |(a, b, c)| check_roundtrip(BackendKind::Memory, a, b, c));
-    ctx.run_prop("roundtrip-sqlite", three, tier.pick(8_000, 300_000), |(a, b, c)| check_roundtrip(BackendKind::Sqlite, a, b, c));
+    ctx.run_prop("roundtrip-sqlite", three, tier.pick(6_000, 300_000), |(a, b, c)| check_roundtrip(BackendKind::Sqlite, a, b, c));
     for l in ["first-terminal", "second-terminal", "pending-replaces-pending", "has-report", "has-mark"] {
         ctx.require_label_fraction("roundtrip-sqlite", l, 0.05);
     }
